@@ -176,7 +176,16 @@ def empty_lists_len(t):
 
 
 def run(rep, repo, tier):
-    return run_terms(rep, repo, tier)
+    try:
+        return run_terms(rep, repo, tier)
+    finally:
+        if not getattr(rep, '_c06_defined', False):
+            # the decision table gave up before the defined-ness obligation was reached: still decide that one
+            from ..defined import check_defined
+            f = repo.method('Model', 'check_stability', required=False)
+            if f is not None:
+                rep._c06_defined = True
+                check_defined(rep, repo, 'C06.R1', [f], 'stability checker')
 
 
 # ======================================================================================================================
@@ -826,6 +835,7 @@ def run_terms(rep, repo, tier):
         rep.ok('C06.R3', f.where, 'all rows of self.pairs x all pairs of the row are examined; False at the first blocking pair, True after the loops', got='loop domains = all rows x all pairs of the row')
     rep.extra['exhaustive_valuations'] = len(vals)
     from ..defined import check_defined
+    rep._c06_defined = True
     check_defined(rep, repo, 'C06.R1', [f], 'stability checker')
     check_caller(rep, repo)
 
